@@ -202,14 +202,20 @@ struct PbCore {
     pub root_children: u64,
     /// number of executions after which all schedules with <= i preemptions had been run
     pub level_done_at: Vec<u64>,
+    /// lowest level from which pending schedules were dropped because they could not be run within the cap
+    truncated_level: Option<usize>,
 }
 
 impl PbCore {
     /// all schedules with at most this many preemptions have been executed (-1: not even the free ones)
     fn complete_bound(&self) -> i64 {
-        match self.levels.iter().position(|l| !l.is_empty()) {
+        let by_queue = match self.levels.iter().position(|l| !l.is_empty()) {
             Some(l) => l as i64 - 1,
             None => self.bound as i64,
+        };
+        match self.truncated_level {
+            Some(t) => by_queue.min(t as i64 - 1),
+            None => by_queue,
         }
     }
 }
@@ -250,6 +256,20 @@ impl PbCore {
             while self.levels.len() <= lvl {
                 self.levels.push(vec![]);
             }
+            // never keep more pending schedules than the execution cap could still run (memory bound);
+            // a level that lost schedules this way is not reported as complete
+            let pending: u64 = self.levels.iter().map(|l| l.len() as u64).sum();
+            if self.runs + pending >= self.max_runs + 64 {
+                // drop from the highest level first: the lower bounds are the ones worth completing
+                let highest = self.levels.iter().rposition(|l| !l.is_empty()).unwrap_or(lvl);
+                if lvl < highest {
+                    self.levels[highest].pop();
+                    self.truncated_level = Some(self.truncated_level.map_or(highest, |t| t.min(highest)));
+                } else {
+                    self.truncated_level = Some(self.truncated_level.map_or(lvl, |t| t.min(lvl)));
+                    continue;
+                }
+            }
             self.levels[lvl].push(k);
         }
     }
@@ -274,6 +294,7 @@ impl Scheduler for PbScheduler {
                 return None;
             }
             let first = c.levels.iter().position(|l| !l.is_empty()).unwrap_or(c.bound + 1);
+            let first = first.min(c.truncated_level.unwrap_or(usize::MAX));
             while c.level_done_at.len() < first.min(c.bound + 1) {
                 let r = c.runs;
                 c.level_done_at.push(r);
@@ -281,7 +302,7 @@ impl Scheduler for PbScheduler {
             let next = c.levels.iter_mut().find(|l| !l.is_empty()).and_then(|l| l.pop());
             match next {
                 None => {
-                    c.exhausted = true;
+                    c.exhausted = c.truncated_level.is_none();
                     return None;
                 }
                 Some((d, cost, free)) => {
